@@ -142,6 +142,60 @@ SUPPRESS_OPT = {
 }
 
 
+def _engaged_by_callee(prog, fn, g, n, obj):
+    """`x.f` (x a local record) after `if (!fill(&x)) return ...`: fill() returns true only where its parameter's
+    field f is engaged (a must-fact at each of its non-false returns)."""
+    o = strip_all(obj)
+    if o is None or o.get("k") != "MemberExpr" or o.get("dk") != "Field" or not o.get("c"):
+        return False
+    base = strip_all(o["c"][0])
+    if base is None or base.get("k") != "DeclRefExpr" or base.get("dk") != "Var":
+        return False
+    for atom, truth in (g.truths(n) or []):
+        call = strip_all(atom)
+        if not truth or call is None or not is_call(call):
+            continue
+        args = call_args(call)
+        for i, a in enumerate(args):
+            sa = strip_all(a)
+            if not (sa is not None and sa.get("k") == "UnaryOperator" and sa.get("op") == "&" and
+                    (strip_all(sa["c"][0]) or {}).get("d") == base["d"]):
+                continue
+            ts = prog.call_targets(fn, call)
+            if not ts:
+                continue
+            good = True
+            for t in ts:
+                if i >= len(t.params):
+                    good = False
+                    break
+                pd = t.params[i]["d"]
+                if any(d_ == pd for x in t.walk() for d_, _ in flow.written_decls(x)):
+                    good = False
+                    break
+                gt = Guards(t)
+                for rt in t.walk():
+                    if rt.get("k") != "ReturnStmt" or not rt.get("c") or folded(rt["c"][0]) == 0:
+                        continue
+                    if folded(rt["c"][0]) is None:
+                        good = False        # a computed result: not followed
+                        break
+                    have = False
+                    for a2, t2 in (gt.truths(rt) or []):
+                        m = strip_all(a2)
+                        if t2 and m is not None and m.get("k") == "MemberExpr" and m.get("n") == o.get("n") and m.get("c") and \
+                                (strip_all(m["c"][0]) or {}).get("d") == pd:
+                            have = True
+                    if not have:
+                        good = False
+                        break
+                if not good:
+                    break
+            if good:
+                return True
+    return False
+
+
 def _engaged_by_earlier_pass(fn, n, obj):
     """A local optional that one pass of a counted loop engages (assignment followed by a test that leaves on
     failure) and later passes use: may-analysis of (engagement, known value of the loop counter).  The counter's
@@ -231,6 +285,8 @@ def rule_optional_access(prog, fixture=False):
             if not ok and _engaged_by_assignment(fn, g, n, obj):
                 ok = True
             if not ok and _engaged_by_earlier_pass(fn, n, obj):
+                ok = True
+            if not ok and _engaged_by_callee(prog, fn, g, n, obj):
                 ok = True
             if not ok:
                 o = strip_all(obj)
@@ -475,6 +531,15 @@ def rule_nonempty_access(prog, fixture=False):
                 elif (strip_all(recv) or {}).get("dk") == "Field":
                     r.undecided.append("%s: %s (%s)" % (fn.loc(n), key, reason))
                     continue
+            if not why:
+                rv_ = strip_all(recv)
+                if rv_ is not None and rv_.get("k") == "DeclRefExpr" and rv_.get("dk") == "Var":
+                    ranged = [v for v in fn.walk() if v.get("k") == "VarDecl" and v.get("d") == rv_["d"] and v.get("c") and
+                              (strip_all(v["c"][0]) or {}).get("k") == "CXXConstructExpr" and len((strip_all(v["c"][0]) or {}).get("c", [])) >= 2]
+                    if ranged:
+                        r.undecided.append("%s: %s is built from a range or count whose size this rule does not compute; "
+                                           "whether %s() is safe is not decided" % (fn.loc(n), show(recv), nm))
+                        continue
             r.add(key, fn.loc(n), bool(why), why if why else
                   "%s.%s() is reached without any test that %s is non-empty: undefined behaviour (crash) on an "
                   "empty container" % (show(recv), nm, show(recv)))
